@@ -16,6 +16,9 @@ GenConfigs(sel) ==
     [] sel = 4 -> { <<B("D", 1, 1, "plain"), B("D", 1, 1, "plain"), B("D", 1, 2, "plain")>>,     \* three proofs: labels may recur non-contiguously
                     <<B("D", 1, 1, "plain"), B("U", 2, 2, "plain"), B("D", 2, 1, "plain")>>,
                     <<B("U", 1, 2, "plain"), B("D", 1, 1, "plain"), B("D", 2, 1, "plain")>> }
+    [] sel = 5 -> { <<B("Dn", 1, 1, "plain"), B("U", 2, 1, "plain")>>,             \* sub-proofs inside bound lists
+                    <<B("Dr", 1, 1, "plain"), B("Dn", 2, 1, "plain")>>,
+                    <<B("Dn", 1, 1, "plain"), B("Dr", 1, 2, "plain")>> }
     [] OTHER -> Configs
 CONSTANT Sel
 \* Sel = 4 (three builders): the session tuple and the keys are the honest ones of session 1, labels are used;
